@@ -61,6 +61,62 @@ pub struct World {
     toks: Vec<Vec<u8>>,
     tok_known: HashSet<Vec<u8>>,
     pub last: Vec<Ev>,
+    /// for a racing / combo op: (node, instant, the order in which its inputs, the worker's polls,
+    /// the handler's timer entries and its looks at the worker's state occurred at that instant)
+    last_sched: Option<(usize, u128, String)>,
+}
+
+/// an API call, carried out now or from a task that wakes at the op's instant
+enum ApiCall { Bootstrapped(usize), Search(usize, Vec<u8>, bool), State, Contacts, Addr }
+
+fn do_api(dht: MainlineDht, me: SocketAddr, call: ApiCall) {
+    match call {
+        ApiCall::Bootstrapped(i) => {
+            tokio::spawn(async move {
+                let r = dht.bootstrapped().await;
+                btdht::verif::trace(|| format!("{me} X resolved {i} {r}"));
+            });
+        }
+        ApiCall::Search(sid, ih, ann) => {
+            let mut stream = dht.search(id_of(&ih), ann);
+            tokio::spawn(async move {
+                while let Some(a) = stream.next().await {
+                    btdht::verif::trace(|| format!("{me} X yield {sid} {}", addr_str(&a)));
+                }
+                btdht::verif::trace(|| format!("{me} X closed {sid}"));
+            });
+        }
+        ApiCall::State => {
+            tokio::spawn(async move {
+                let s = dht.get_state().await;
+                btdht::verif::trace(|| match s {
+                    Some(s) => format!("{me} X state run={} boot={} good={} quest={} buckets={}", s.is_running, s.bootstrapped, s.good_node_count, s.questionable_node_count, s.bucket_count),
+                    None => format!("{me} X state dead"),
+                });
+            });
+        }
+        ApiCall::Contacts => {
+            tokio::spawn(async move {
+                let s = dht.load_contacts().await;
+                btdht::verif::trace(|| match s {
+                    Ok((g, q)) => {
+                        let mut g: Vec<String> = g.iter().map(addr_str).collect();
+                        let mut q: Vec<String> = q.iter().map(addr_str).collect();
+                        g.sort();
+                        q.sort();
+                        format!("{me} X contacts good=[{}] quest=[{}]", g.join(","), q.join(","))
+                    }
+                    Err(_) => format!("{me} X contacts dead"),
+                });
+            });
+        }
+        ApiCall::Addr => {
+            tokio::spawn(async move {
+                let s = dht.local_addr().await;
+                btdht::verif::trace(|| match s { Ok(a) => format!("{me} X addr {}", addr_str(&a)), Err(_) => format!("{me} X addr dead") });
+            });
+        }
+    }
 }
 
 fn ns_of(t: std::time::Instant, t0: std::time::Instant) -> u128 {
@@ -71,7 +127,7 @@ impl World {
     fn new() -> World {
         let notify = Arc::new(Notify::new());
         btdht::verif::trace_enable(Some(notify.clone()));
-        World { clock: VClock::start(), notify, nodes: BTreeMap::new(), by_addr: HashMap::new(), names: vec![], name_idx: HashMap::new(), known: HashSet::new(), toks: vec![], tok_known: HashSet::new(), last: vec![] }
+        World { clock: VClock::start(), notify, nodes: BTreeMap::new(), by_addr: HashMap::new(), names: vec![], name_idx: HashMap::new(), known: HashSet::new(), toks: vec![], tok_known: HashSet::new(), last: vec![], last_sched: None }
     }
     pub fn now(&self) -> u128 { self.clock.now_ns() }
 
@@ -262,6 +318,8 @@ impl World {
                     if id == tg { fr.push(format!("{}/{}", e.node, w[1].split('/').next().unwrap_or(""))); }
                 }
             }
+            // at the instant of a racing op the order is spelt out in `~sched`
+            if self.last_sched.as_ref().map(|(k, t, _)| *k == e.node && *t == e.t).unwrap_or(false) { continue }
             if e.text.starts_with("H timer") {
                 let before: Vec<&Ev> = self.last[..i].iter().filter(|p| p.t == e.t && p.node == e.node).collect();
                 if before.iter().any(|p| p.text.starts_with("B ")) {
@@ -278,6 +336,10 @@ impl World {
         let mut s = String::new();
         if !fr.is_empty() { s.push_str(&format!(" ~fr={}", fr.join(","))); }
         if !bfirst.is_empty() { s.push_str(&format!(" ~bfirst={}", bfirst.iter().map(|k| k.to_string()).collect::<Vec<_>>().join(","))); }
+        if let Some((_, _, sch)) = &self.last_sched {
+            s.push_str(&format!(" ~hold ~sched={}", sch.trim_end_matches(",CUT")));
+            if sch.ends_with("CUT") { ambiguous = true; }
+        }
         if ambiguous { s.push_str(" ~unmodelled"); }
         s
     }
@@ -292,6 +354,7 @@ impl World {
     }
     /// result of an `adv` op whose events were already collected
     pub fn finish_adv(&mut self, raw: Vec<(std::time::Instant, String)>) -> String {
+        self.last_sched = None;
         let evs = self.canon(raw);
         let line = self.render(&evs);
         self.last = evs;
@@ -328,11 +391,98 @@ impl World {
         text_to_msg(&refs)
     }
 
+    /// `dg <tid> <src> <body...>` / `dgraw <hex> <src>` (no node index, no instant) -> bytes, source
+    fn datagram_of(&self, item: &[&str]) -> Option<(Vec<u8>, SocketAddr)> {
+        match item.first().copied() {
+            Some("dg") if item.len() >= 4 => {
+                let tid = self.resolve_tid(item[1])?;
+                let src = parse_addr(item[2])?;
+                let msg = self.build_msg(tid, &item[3..])?;
+                Some((msg.encode().ok()?, src))
+            }
+            Some("dgraw") if item.len() == 3 => Some((unhex(item[1]).unwrap_or_default(), parse_addr(item[2])?)),
+            _ => None,
+        }
+    }
+
+    /// the API call of an `api <k> <what> ...` op; allocates the waiter / stream number
+    fn api_call(&mut self, k: usize, w: &[&str]) -> Option<ApiCall> {
+        let n = self.nodes.get_mut(&k)?;
+        match w.get(2).copied() {
+            Some("bootstrapped") => { let i = n.waiters; n.waiters += 1; Some(ApiCall::Bootstrapped(i)) }
+            Some("search") => {
+                let ih = w.get(3).and_then(|x| unhex(x)).filter(|x| x.len() == 20)?;
+                let ann = *w.get(4)? == "1";
+                let sid = n.streams;
+                n.streams += 1;
+                Some(ApiCall::Search(sid, ih, ann))
+            }
+            Some("state") => Some(ApiCall::State),
+            Some("contacts") => Some(ApiCall::Contacts),
+            Some("addr") => Some(ApiCall::Addr),
+            _ => None,
+        }
+    }
+
+    fn combo_api_ok(item: &[&str]) -> bool {
+        item.first() == Some(&"api") && match item.get(1).copied() {
+            Some("bootstrapped") | Some("state") | Some("contacts") | Some("addr") => item.len() == 2,
+            Some("search") => item.len() == 4 && unhex(item[2]).map(|x| x.len() == 20).unwrap_or(false),
+            _ => false,
+        }
+    }
+
+    /// the order in which things happened at node `k` at instant `t`, from the trace: `W` the
+    /// worker's task ran, `T` the handler took a due timer entry, `O` it looked at the worker's
+    /// published state, `I` it took the next input of the op (the API call is input `api_idx`, the
+    /// datagrams are the inputs from `dg0` on; the model takes them in the order of the letters)
+    fn derive_sched(k: usize, t: u128, evs: &[Ev], dg0: usize, _n: usize) -> String {
+        let mut out: Vec<String> = vec![];
+        let mut next_dg = dg0;
+        // what the current block belongs to: 'W' worker, 'H' handler
+        let mut cur = ' ';
+        // has the worker been given a reason to run since its last block (a due timer at the
+        // beginning of the instant, an answer routed to it)? a block without one is the
+        // continuation of a poll that tokio's cooperative budget cut in two: not modelled
+        let mut reason = true;
+        let mut cut = false;
+        for e in evs.iter().filter(|e| e.node == k && e.t == t && !e.text.starts_with("X ")) {
+            let x = e.text.as_str();
+            if x.starts_with("S routed") || x == "H cmd start_bootstrap" { reason = true; }
+            if x.starts_with("B ") {
+                if cur != 'W' { out.push("W".into()); cur = 'W'; if !reason { cut = true; } reason = false; }
+            } else if x.starts_with("H timer") {
+                out.push("T".into()); cur = 'H';
+            } else if x.starts_with("H cmd") {
+                // the API call is the first item of a combo, the only one of a racing call
+                out.push("I0".into()); cur = 'H';
+            } else if x.starts_with("S routed") || x.starts_with("H msg") || x.starts_with("S undecodable") {
+                out.push(format!("I{next_dg}")); next_dg += 1; cur = 'H';
+            } else if x == "H bstate false" {
+                // a look at a state other than Bootstrapped does nothing; the worker's poll that a
+                // cooperative-budget pause cut in two around it is one poll
+            } else if x.starts_with("H bstate") {
+                out.push("O".into()); cur = 'H';
+            } else if x.starts_with("W ") && x.contains(" q find_node ") && cur == ' ' {
+                // a poll of the worker that only sends (after the throttle pause of the first round)
+                out.push("W".into()); cur = 'W';
+            }
+        }
+        if cut { out.push("CUT".into()); }
+        if out.is_empty() { "-".into() } else { out.join(",") }
+    }
+
     /// execute one op on the real nodes; the events it caused are left in `self.last`
     pub async fn exec(&mut self, req: &str, st: &mut Stats) -> String {
-        let w: Vec<&str> = req.split_whitespace().collect();
+        let mut w: Vec<&str> = req.split_whitespace().collect();
         let mut raw = vec![];
+        self.last_sched = None;
         if w.first() == Some(&"note") { self.last.clear(); return "-".into() }
+        // `racing api ...`: the call is made by a task that wakes at the op's instant, together
+        // with whatever is due at that instant
+        let racing = w.first() == Some(&"racing");
+        if racing { w.remove(0); }
+        if racing && w.first() != Some(&"api") { return "bad-op".into() }
         let Some(t) = w.last().and_then(|x| parse_at(x)) else { return "bad-op".into() };
         if t < self.now() { return "bad-op".into() }
         // an op that cannot be carried out has no effect at all (as in the model): check first
@@ -351,6 +501,12 @@ impl World {
                     _ => false,
                 },
             "dgraw" => node_of(1).map(|k| self.nodes.contains_key(&k)).unwrap_or(false) && w.len() == 5 && parse_addr(w[3]).is_some(),
+            "combo" => node_of(1).map(|k| self.nodes.contains_key(&k)).unwrap_or(false) && w.len() >= 7
+                && (w[2] == "on=boot" || w[2].strip_prefix("yields=").and_then(|x| x.parse::<usize>().ok()).is_some())
+                && { let items: Vec<&[&str]> = w[3..w.len() - 1].split(|x| *x == "||").collect();
+                     items.len() >= 2 && Self::combo_api_ok(items[0]) && items[1..].iter().all(|it| self.datagram_of(it).is_some()) },
+            "multi" => node_of(1).map(|k| self.nodes.contains_key(&k)).unwrap_or(false) && w.len() >= 5
+                && w[2..w.len() - 1].split(|x| *x == "||").all(|item| self.datagram_of(item).is_some()),
             "api" => node_of(1).map(|k| self.nodes.contains_key(&k)).unwrap_or(false) && match w.get(2).copied() {
                 Some("bootstrapped") | Some("state") | Some("contacts") | Some("addr") => w.len() == 4,
                 Some("search") => w.len() == 6 && w.get(3).and_then(|x| unhex(x)).map(|x| x.len() == 20).unwrap_or(false),
@@ -359,10 +515,79 @@ impl World {
             _ => false,
         };
         if !valid { return "bad-op".into() }
+        if racing {
+            let Some(k) = node_of(1) else { return "bad-op".into() };
+            let Some(call) = self.api_call(k, &w) else { return "bad-op".into() };
+            let n = &self.nodes[&k];
+            let (dht, me) = (n.dht.clone(), n.sock.local);
+            let d = t - self.now();
+            tokio::spawn(async move {
+                tokio::time::sleep(std::time::Duration::new((d / S) as u64, (d % S) as u32)).await;
+                do_api(dht, me, call);
+            });
+            // let the caller's task register its timer before the clock moves
+            tokio::task::yield_now().await;
+            tokio::task::yield_now().await;
+            self.sleep_to(t, &mut raw).await;
+            self.settle(&mut raw).await;
+            let evs = self.canon(raw);
+            self.last_sched = Some((k, t, Self::derive_sched(k, t, &evs, 0, 1)));
+            let line = self.render(&evs);
+            self.last = evs;
+            st.hit("racing_api");
+            return if line.is_empty() { "-".into() } else { line };
+        }
+        if w[0] == "combo" {
+            // datagrams and an API call that reach the handler at about the same moment
+            let Some(k) = node_of(1) else { return "bad-op".into() };
+            let yields: usize = w[2].strip_prefix("yields=").and_then(|x| x.parse().ok()).unwrap_or(0);
+            let items: Vec<Vec<&str>> = w[3..w.len() - 1].split(|x| *x == "||").map(|x| x.to_vec()).collect();
+            let mut apiw: Vec<&str> = vec!["api", w[1]];
+            apiw.extend(items[0][1..].iter().copied());
+            apiw.push(w[w.len() - 1]);
+            let dgs: Vec<(Vec<u8>, SocketAddr)> = items[1..].iter().filter_map(|it| self.datagram_of(it)).collect();
+            self.sleep_to(t, &mut raw).await;
+            let Some(call) = self.api_call(k, &apiw) else { return "bad-op".into() };
+            let n = &self.nodes[&k];
+            let (dht, me) = (n.dht.clone(), n.sock.local);
+            let ndg = dgs.len();
+            if w[2] == "on=boot" {
+                // the call is made at the very moment the worker reports Bootstrapped (if it does so
+                // while these datagrams are taken in; otherwise right after them): the handler then has
+                // the command and the worker's new state to look at together
+                btdht::verif::trace_trigger_set(format!("{me} B state Bootstrapped"), Box::new(move || do_api(dht, me, call)));
+                for (bytes, src) in dgs { n.sock.deliver(bytes, src); }
+                self.settle(&mut raw).await;
+                if let Some(action) = btdht::verif::trace_trigger_clear() {
+                    action();
+                    self.settle(&mut raw).await;
+                }
+            } else {
+                // the caller is a task of its own that yields `yields` times before the call
+                tokio::spawn(async move {
+                    for _ in 0..yields { tokio::task::yield_now().await; }
+                    do_api(dht, me, call);
+                });
+                for (bytes, src) in dgs { n.sock.deliver(bytes, src); }
+                self.settle(&mut raw).await;
+            }
+            let evs = self.canon(raw);
+            self.last_sched = Some((k, t, Self::derive_sched(k, t, &evs, 1, ndg)));
+            let line = self.render(&evs);
+            self.last = evs;
+            st.hit(&format!("combo_{}", w[2].replace('=', "_")));
+            return if line.is_empty() { "-".into() } else { line };
+        }
         // everything due up to `t` happens first
         self.sleep_to(t, &mut raw).await;
         match w[0] {
             "adv" => {}
+            "multi" => {
+                let Some(k) = node_of(1) else { return "bad-op".into() };
+                let items: Vec<(Vec<u8>, SocketAddr)> = w[2..w.len() - 1].split(|x| *x == "||").filter_map(|item| self.datagram_of(item)).collect();
+                st.hit(&format!("multi_{}", items.len()));
+                for (bytes, src) in items { self.nodes[&k].sock.deliver(bytes, src); }
+            }
             "nnew" => {
                 let Some(k) = w.get(1).and_then(|x| x.parse::<usize>().ok()) else { return "bad-op".into() };
                 let (Some(id), Some(addr)) = (w.get(2).and_then(|x| unhex(x)), kv(&w, "addr").and_then(parse_addr)) else { return "bad-op".into() };
@@ -406,63 +631,11 @@ impl World {
             }
             "api" => {
                 let Some(k) = w.get(1).and_then(|x| x.parse::<usize>().ok()) else { return "bad-op".into() };
-                let Some(n) = self.nodes.get_mut(&k) else { return "bad-op".into() };
-                let me = n.sock.local;
-                let dht = n.dht.clone();
+                if !self.nodes.contains_key(&k) { return "bad-op".into() }
                 st.hit(&format!("api_{}", w.get(2).copied().unwrap_or("")));
-                match w.get(2).copied() {
-                    Some("bootstrapped") => {
-                        let i = n.waiters;
-                        n.waiters += 1;
-                        tokio::spawn(async move {
-                            let r = dht.bootstrapped().await;
-                            btdht::verif::trace(|| format!("{me} X resolved {i} {r}"));
-                        });
-                    }
-                    Some("search") => {
-                        let (Some(ih), Some(ann)) = (w.get(3).and_then(|x| unhex(x)).filter(|x| x.len() == 20), w.get(4)) else { return "bad-op".into() };
-                        let sid = n.streams;
-                        n.streams += 1;
-                        let mut stream = dht.search(id_of(&ih), *ann == "1");
-                        tokio::spawn(async move {
-                            while let Some(a) = stream.next().await {
-                                btdht::verif::trace(|| format!("{me} X yield {sid} {}", addr_str(&a)));
-                            }
-                            btdht::verif::trace(|| format!("{me} X closed {sid}"));
-                        });
-                    }
-                    Some("state") => {
-                        tokio::spawn(async move {
-                            let s = dht.get_state().await;
-                            btdht::verif::trace(|| match s {
-                                Some(s) => format!("{me} X state run={} boot={} good={} quest={} buckets={}", s.is_running, s.bootstrapped, s.good_node_count, s.questionable_node_count, s.bucket_count),
-                                None => format!("{me} X state dead"),
-                            });
-                        });
-                    }
-                    Some("contacts") => {
-                        tokio::spawn(async move {
-                            let s = dht.load_contacts().await;
-                            btdht::verif::trace(|| match s {
-                                Ok((g, q)) => {
-                                    let mut g: Vec<String> = g.iter().map(addr_str).collect();
-                                    let mut q: Vec<String> = q.iter().map(addr_str).collect();
-                                    g.sort();
-                                    q.sort();
-                                    format!("{me} X contacts good=[{}] quest=[{}]", g.join(","), q.join(","))
-                                }
-                                Err(_) => format!("{me} X contacts dead"),
-                            });
-                        });
-                    }
-                    Some("addr") => {
-                        tokio::spawn(async move {
-                            let s = dht.local_addr().await;
-                            btdht::verif::trace(|| match s { Ok(a) => format!("{me} X addr {}", addr_str(&a)), Err(_) => format!("{me} X addr dead") });
-                        });
-                    }
-                    _ => return "bad-op".into(),
-                }
+                let Some(call) = self.api_call(k, &w) else { return "bad-op".into() };
+                let n = &self.nodes[&k];
+                do_api(n.dht.clone(), n.sock.local, call);
             }
             _ => return "bad-op".into(),
         }
